@@ -59,6 +59,10 @@ func runC11(e *Env) error {
 	childVariants = append(childVariants,
 		"<"+view()+">"+"{% if false %}n{% else %}{% set a = 'child-a' %}{% set b = 'child-b' %}{% set c = 1 %}{% set d = 2 %}{% endif %}CB",
 		"<"+view()+">"+"{% if false %}n{% elseif true %}{% if true %}{% set a = 'x' %}{% set zz = 1 %}{% endif %}{% set b = 'y' %}{% else %}m{% endif %}{% if a %}{% set c = 1 %}{% set d = 2 %}{% endif %}CB")
+	// the included template extends a layout: what it (in an overriding block) and the layout read is the includer's scope too
+	childVariants = append(childVariants,
+		"{% extends 'lay' %}{% block v %}<"+view()+">{% endblock %}{% block tail %}{% set a = 'child-a' %}{% set d = 4 %}CB{% endblock %}",
+		"{% extends 'lay2' %}{% block cb %}{% set b = 'child-b' %}CB{% endblock %}")
 	nestedMissing := "<in>{% include 'nosuch-inner' %}</in>"
 	// (s1) the included template is registered again between two renders of the includer: static and computed names,
 	// top level and inside a loop / macro / included template follow it alike
@@ -291,7 +295,11 @@ func runC11(e *Env) error {
 		default:
 			main = pre.String() + probes + midInc + probes
 		}
-		tpls := map[string]string{"main": main, "child": pick(rg, childVariants), "failing": failing, "mid": midPre + inc, "nestedmissing": nestedMissing}
+		tpls := map[string]string{"main": main, "child": pick(rg, childVariants), "failing": failing, "mid": midPre + inc, "nestedmissing": nestedMissing,
+			"lay": "{% block v %}{% endblock %}{% set c = 'lay-c' %}{% block tail %}{% endblock %}", "lay2": "<" + view() + ">{% set a = 'lay-a' %}{% block cb %}{% endblock %}"}
+		if strings.Contains(tpls["child"], "{% extends") {
+			r.Hit("child-extends-a-layout")
+		}
 		c := &Case{Templates: tpls, Main: "main", Ctx: ctx, FailAt: -1}
 		if sandboxed {
 			c.Policy = &PolicySpec{Filters: []string{"upper", "default", "escape"}, Functions: []string{"range", "cm", "mk", "nosuchfn"}}
